@@ -106,6 +106,8 @@ type k4frame struct {
 	cur  *ssa.BasicBlock
 	vals map[ssa.Value]k4val
 	fvs  []k4val // free variable cells (address keys)
+	// pending: model keys that were missing when a call was evaluated eagerly but not (yet) needed
+	pending []string
 }
 
 var errK4Undecided = fmt.Errorf("undecided")
@@ -215,9 +217,15 @@ func (it *k4interp) call(f *ssa.Function, args []k4val, fvs []k4val) ([]k4val, e
 			case *ssa.Panic:
 				return []k4val{{kind: 4, s: "panic"}}, nil
 			case *ssa.Call:
-				// calls with effects must be evaluated in order; pure ones are memoised
-				if _, err := it.eval(fr, x); err != nil && err == errK4Undecided {
-					return nil, err
+				// calls are evaluated in program order; an opaque result that the model does not
+				// define stays unevaluated (it is an error only if control flow depends on it)
+				if _, err := it.eval(fr, x); err == errK4Undecided {
+					if k, ok := it.keyOf(fr, x); ok {
+						it.calls = append(it.calls, k)
+						delete(it.m.Missing, "bool "+k)
+						delete(it.m.Missing, "num "+k)
+						fr.pending = append(fr.pending, "bool "+k, "num "+k)
+					}
 				}
 			case *ssa.UnOp:
 				// loads are evaluated in program order (a later store must not be observed)
@@ -821,10 +829,13 @@ func (it *k4interp) eval1(fr *k4frame, v ssa.Value) (k4val, error) {
 			return k4val{kind: 8, s: sv.s, off: sv.off + lo, ln: hi - lo, cp: sv.cp - lo}, nil
 		}
 		if x.Low == nil && x.High == nil {
-			if _, isPtr := x.X.Type().Underlying().(*types.Pointer); isPtr {
+			if pt, isPtr := x.X.Type().Underlying().(*types.Pointer); isPtr {
 				k, err := it.addrKey(fr, x.X)
 				if err != nil {
 					return k4val{}, err
+				}
+				if at, ok := pt.Elem().Underlying().(*types.Array); ok {
+					return k4val{kind: 8, s: k, ln: int(at.Len()), cp: int(at.Len())}, nil
 				}
 				return k4val{kind: 3, s: k}, nil
 			}
@@ -855,6 +866,15 @@ func (it *k4interp) eval1(fr *k4frame, v ssa.Value) (k4val, error) {
 				if err != nil {
 					return src, err
 				}
+				if (dst.kind == 8 || dst.s == "nil") && src.kind == 4 {
+					// append(bytes, "str"...)
+					it.frameID++
+					sb := fmt.Sprintf("M%d", it.frameID)
+					for i := 0; i < len(src.s); i++ {
+						it.mem[fmt.Sprintf("%s[%d]", sb, i)] = k4val{kind: 2, f: float64(src.s[i])}
+					}
+					src = k4val{kind: 8, s: sb, ln: len(src.s), cp: len(src.s)}
+				}
 				if (dst.kind == 8 || dst.s == "nil") && src.kind == 8 {
 					it.frameID++
 					base := fmt.Sprintf("M%d", it.frameID)
@@ -874,6 +894,9 @@ func (it *k4interp) eval1(fr *k4frame, v ssa.Value) (k4val, error) {
 					}
 					cp(src)
 					return k4val{kind: 8, s: base, ln: n, cp: n}, nil
+				}
+				if dst.kind == 3 {
+					return k4val{kind: 3, s: "append(" + dst.s + "," + src.String() + ")"}, nil
 				}
 				return k4val{}, fmt.Errorf("append on unmodelled slices")
 			case "len":
@@ -921,6 +944,7 @@ func (it *k4interp) eval1(fr *k4frame, v ssa.Value) (k4val, error) {
 				args = append(args, av)
 			}
 			if k, ok := it.opaqueCall(args); ok {
+				it.calls = append(it.calls, k)
 				return it.lookup(k, x.Type())
 			}
 		}
